@@ -65,6 +65,7 @@ type c25HSScenario struct {
 	Meta         string `json:"meta"`   // nocmd | workdir | ptynocmd | badcmd | garbage
 	Closer       string `json:"closer"` // close | closeall
 	Rival        bool   `json:"rival"`  // a third thread makes a valid request at the same time
+	Bound        int    `json:"bound"`  // preemption bound of the enumeration (not needed for a replay)
 	Choices      []int  `json:"choices,omitempty"`
 }
 
@@ -72,6 +73,9 @@ func (sc c25HSScenario) String() string {
 	s := fmt.Sprintf("max_sessions=%d held=%d meta=%s closer=%s", sc.Max, sc.Held, sc.Meta, sc.Closer)
 	if sc.Rival {
 		s += " rival"
+	}
+	if sc.Bound > 2 {
+		s += fmt.Sprintf(" bound=%d", sc.Bound)
 	}
 	return s
 }
@@ -280,31 +284,49 @@ func c25HSScenarios(r *vmc.Result) []c25HSScenario {
 	if !r.Thorough() {
 		for _, m := range []string{"nocmd", "workdir"} {
 			for _, cl := range []string{"close", "closeall"} {
-				out = append(out, c25HSScenario{Max: 2, Held: 1, Meta: m, Closer: cl})
+				out = append(out, c25HSScenario{Max: 2, Held: 1, Meta: m, Closer: cl, Bound: 2})
 			}
 		}
 		out = append(out,
-			c25HSScenario{Max: 1, Held: 0, Meta: "nocmd", Closer: "close"},
-			c25HSScenario{Max: 2, Held: 1, Meta: "ptynocmd", Closer: "close"},
-			c25HSScenario{Max: 2, Held: 2, Meta: "nocmd", Closer: "close"},
-			c25HSScenario{Max: 2, Held: 1, Meta: "badcmd", Closer: "close"},
-			c25HSScenario{Max: 2, Held: 1, Meta: "garbage", Closer: "close"},
+			c25HSScenario{Max: 1, Held: 0, Meta: "nocmd", Closer: "close", Bound: 2},
+			c25HSScenario{Max: 2, Held: 1, Meta: "ptynocmd", Closer: "close", Bound: 2},
+			c25HSScenario{Max: 2, Held: 2, Meta: "nocmd", Closer: "close", Bound: 2},
+			c25HSScenario{Max: 2, Held: 1, Meta: "badcmd", Closer: "close", Bound: 2},
+			c25HSScenario{Max: 2, Held: 1, Meta: "garbage", Closer: "close", Bound: 2},
 		)
 		return out
 	}
+	// thorough. The expensive scenarios come first so that they are dealt one per shard:
+	// preemption bound 3 where a slot is held beside the failing request ...
+	for _, m := range []string{"nocmd", "workdir"} {
+		for _, cl := range []string{"close", "closeall"} {
+			out = append(out, c25HSScenario{Max: 2, Held: 1, Meta: m, Closer: cl, Bound: 3})
+		}
+	}
+	out = append(out,
+		c25HSScenario{Max: 1, Held: 0, Meta: "nocmd", Closer: "close", Bound: 3},
+		c25HSScenario{Max: 3, Held: 2, Meta: "nocmd", Closer: "close", Bound: 3},
+		// ... and a rival valid request as third thread (bound 2)
+		c25HSScenario{Max: 2, Held: 1, Meta: "nocmd", Closer: "close", Rival: true, Bound: 2},
+		c25HSScenario{Max: 2, Held: 0, Meta: "nocmd", Closer: "close", Rival: true, Bound: 2},
+		c25HSScenario{Max: 1, Held: 0, Meta: "nocmd", Closer: "close", Rival: true, Bound: 2},
+		c25HSScenario{Max: 2, Held: 1, Meta: "workdir", Closer: "closeall", Rival: true, Bound: 2},
+	)
+	// the whole product at bound 2
 	for _, max := range []int{1, 2, 3} {
 		for held := 0; held <= max; held++ {
 			for _, m := range []string{"nocmd", "workdir", "ptynocmd", "badcmd", "garbage"} {
 				for _, cl := range []string{"close", "closeall"} {
-					out = append(out, c25HSScenario{Max: max, Held: held, Meta: m, Closer: cl})
+					dup := false
+					for _, x := range out {
+						if !x.Rival && x.Max == max && x.Held == held && x.Meta == m && x.Closer == cl {
+							dup = true // already explored with bound 3
+						}
+					}
+					if !dup {
+						out = append(out, c25HSScenario{Max: max, Held: held, Meta: m, Closer: cl, Bound: 2})
+					}
 				}
-			}
-		}
-	}
-	for _, max := range []int{1, 2} {
-		for held := 0; held < max; held++ {
-			for _, m := range []string{"nocmd", "workdir"} {
-				out = append(out, c25HSScenario{Max: max, Held: held, Meta: m, Closer: "close", Rival: true})
 			}
 		}
 	}
@@ -333,8 +355,8 @@ func c25HandlerSched(r *vmc.Result) {
 		r.HarnessError("C25 handler-sched: the directory %q exists", c25NoSuchDir)
 		return
 	}
-	bound := vmc.Pick(r, 2, 3)
-	r.Info["handler_sched_preemption_bound"] = bound
+	// preemption bound: 2; thorough: 3 for the scenarios in which a slot is held beside the failing request
+	r.Info["handler_sched_preemption_bound"] = map[string]int{"product": 2, "with_rival": 2, "slot_held_beside_the_failing_request": vmc.Pick(r, 2, 3)}
 	start := time.Now()
 	defer func() { r.SetMax("handler_sched_half_wall_ms", time.Since(start).Milliseconds()) }()
 	completed, execs := 0, 0
@@ -366,7 +388,7 @@ func c25HandlerSched(r *vmc.Result) {
 			if execs%64 == 0 {
 				runtime.GC() // child ends of the never-started pipes are closed by finalizers
 			}
-		}, vmc.DFSOpts{Bound: bound})
+		}, vmc.DFSOpts{Bound: sc.Bound})
 		r.Shards, r.Shard = shards, shard
 		r.Add("evaluations", st.Executions)
 		r.Add("handler_sched_executions", st.Executions)
